@@ -92,7 +92,7 @@ func fieldsIn(v ssa.Value, owner *types.Named, out map[string]bool, depth int) {
 // consumerSide: writes of a predicate field that only move towards "wait" (take an element
 // away); they need no signal. Frozen table, one line of reason each.
 var consumerSide = map[string]string{
-	"(*pipeline.stream).get|first":           "dequeue: pops the head; can only empty the queue, which is what waiters wait on",
+	"(*pipeline.stream).get|first":            "dequeue: pops the head; can only empty the queue, which is what waiters wait on",
 	"(*pipeline.streamer).joinStream|charged": "pops a charged stream; can only shrink the list waiters wait on",
 }
 
